@@ -232,4 +232,9 @@ theorem okAll_failed (q : Bool) (sites : List Site) (t : Trace) :
     simp only [okAll, List.foldl_cons] at *
     rw [ih]; simp [okStep]
 
+theorem take_succ_getD {α : Type} (P : List α) (k : Nat) (d : α) (hk : k < P.length) :
+    P.take (k + 1) = P.take k ++ [P.getD k d] := by
+  rw [List.take_add_one]
+  simp [List.getD_eq_getElem?_getD, List.getElem?_eq_getElem hk]
+
 end Sqfs.FailStop
